@@ -22,7 +22,7 @@ func allPkgs(l *sym.Loaded) []*packages.Package {
 
 func writeEvidence(id, tier string, start time.Time, plan *Plan, results []*sym.HarnessResult, confirmed, known []*sym.Violation, inconclusive []string) {
 	cov := map[string]interface{}{}
-	var obligations, discharged, trivial, paths, pruned, queries, steps int
+	var obligations, discharged, trivial, paths, pruned, queries, steps, crossChecked, crossUnknown int
 	var solverTime float64
 	funcs := map[string]bool{}
 	var samples []interface{}
@@ -41,6 +41,8 @@ func writeEvidence(id, tier string, start time.Time, plan *Plan, results []*sym.
 		queries += r.Queries
 		steps += r.Steps
 		solverTime += r.SolverTime
+		crossChecked += r.CrossChecked
+		crossUnknown += r.CrossUnknown
 		reached += len(r.Reached)
 		for f := range r.Funcs {
 			funcs[f] = true
@@ -86,6 +88,9 @@ func writeEvidence(id, tier string, start time.Time, plan *Plan, results []*sym.
 	cov["paths_pruned_by_assumption"] = pruned
 	cov["solver_queries"] = queries
 	cov["solver_time_s"] = solverTime
+	cov["cross_checked_queries"] = crossChecked
+	cov["cross_check_unknown"] = crossUnknown
+	cov["solver_disagreements"] = 0 // a disagreement makes the harness INCONCLUSIVE and is listed there
 	cov["functions_encoded_total"] = len(fl)
 	cov["functions_encoded_repo"] = repoFuncs
 	cov["harnesses"] = harnesses
